@@ -20,7 +20,7 @@ import (
 type Opt struct {
 	CF, RN, FE, RO bool // ConstantFolding, ReduceNesting, FastEvaluation, Reordering
 	Events         int  // 0 off, 1 ReportEvent, 2 Debug
-	Undef          int  // 0 all variables registered, 1 all undefined-mode, 2 odd-numbered undefined-mode
+	Undef          int  // 0 all variables registered, 1 all undefined-mode, 2 odd-numbered undefined-mode, 3 all registered but undefined variables allowed
 	Directive      int  // 0 programmatic options; 1.. in-source directive renderings
 	Infix          bool
 	Costs          map[string]float64
@@ -250,7 +250,7 @@ func (h *Harness) NewConfig(vars []term.VarDecl, o Opt) *eval.Config {
 	}
 	for i, v := range vars {
 		switch o.Undef {
-		case 0:
+		case 0, 3:
 			cfg.VariableKeyMap[v.Name] = KeyOf(i)
 		case 1:
 		case 2:
